@@ -104,6 +104,66 @@ fn hist_json(p: &Params, ops: &[Op]) -> Value {
     json!({"params": params_json(p), "ops": ops.iter().map(op_json).collect::<Vec<_>>()})
 }
 
+fn parse_f(v: &Value) -> Vec<f32> {
+    v.as_array().map(|a| a.iter().map(|x| x.as_f64().unwrap_or(0.0) as f32).collect()).unwrap_or_default()
+}
+
+fn parse_probe(o: &Value, qkey: &str) -> Probe {
+    Probe { q: parse_f(&o[qkey]), k: o["k"].as_u64().unwrap_or(1) as usize, ef: o["ef"].as_u64().unwrap_or(1) as usize }
+}
+
+/// inverse of `hist_json` (for --replay)
+fn parse_history(h: &Value) -> Option<(Params, Vec<Op>)> {
+    let pj = h.get("params")?;
+    let p = Params {
+        dim: pj["dim"].as_u64()? as usize,
+        m: pj["m"].as_u64()? as u16,
+        efc: pj["ef_construction"].as_u64()? as u16,
+        efs: pj["ef_search_header"].as_u64()? as u16,
+        dist: match pj["distance_fn"].as_str()? {
+            "Cosine" => 1,
+            "InnerProduct" => 2,
+            _ => 0,
+        },
+        quant: (pj["quantization"].as_str()? == "SQ8") as u8,
+        callback: pj["insert_api"].as_str()?.starts_with("insert_with_callback"),
+    };
+    let mut ops = vec![];
+    for o in h.get("ops")?.as_array()? {
+        if let Some(r) = o.get("insert") {
+            ops.push(Op::Insert { row: r.as_u64()?, v: parse_f(&o["v"]), rnd: o["rnd"].as_f64()? });
+        } else if let Some(r) = o.get("delete_by_row_id") {
+            ops.push(Op::Delete { row: r.as_u64()? });
+        } else if let Some(m) = o.get("vacuum_batch") {
+            ops.push(Op::Vacuum { max: m.as_u64()? as usize });
+        } else if let Some(ps) = o.get("sync_reopen_probes") {
+            ops.push(Op::Reopen { probes: ps.as_array()?.iter().map(|x| parse_probe(x, "q")).collect() });
+        } else if o.get("search").is_some() {
+            ops.push(Op::Search(parse_probe(o, "search")));
+        }
+    }
+    Some((p, ops))
+}
+
+/// find the first embedded history object in a replay / witnesses file
+fn find_history(v: &Value) -> Option<&Value> {
+    match v {
+        Value::Object(m) => {
+            if m.contains_key("params") && m.contains_key("ops") {
+                return Some(v);
+            }
+            for k in ["history", "history_up_to_fatal_op", "minimised_witness", "detail"] {
+                if let Some(x) = m.get(k).and_then(find_history) {
+                    return Some(x);
+                }
+            }
+            m.values().find_map(find_history)
+        }
+        Value::Array(a) => a.iter().find_map(find_history),
+        _ => None,
+    }
+}
+
 fn hist_hash(p: &Params, ops: &[Op]) -> u64 {
     let mut b: Vec<u8> = vec![p.dim as u8, p.m as u8, p.efc as u8, p.dist, p.quant, p.callback as u8];
     for op in ops {
@@ -253,6 +313,14 @@ fn page_overflow(sizes: &[usize]) -> Option<Value> {
     None
 }
 
+/// does `SlotEntry` lose the high bit of an offset in the upper half of the page?
+fn slot_offset_truncates() -> bool {
+    use turdb::hnsw::storage::{SlotEntry, SlotStatus};
+    let e = SlotEntry::new(12_000, 202, SlotStatus::Active);
+    let d = SlotEntry::decode(&e.encode());
+    d.offset != 12_000
+}
+
 pub const OVERFLOW_CAUSE: &str = "node_page_slot_offset_truncated_to_13_bits";
 
 impl<'a> Exec<'a> {
@@ -260,8 +328,7 @@ impl<'a> Exec<'a> {
         let op_index = self.cur_op;
         let (sig, detail) = match &self.layout_overflow {
             // everything observed on an index whose node pages overwrite themselves has this one cause
-            Some(l) if !sig.starts_with("C25/no_panic/") => (format!("C25/{}/{}", assertion, OVERFLOW_CAUSE), json!({"page_layout": l, "would_be_sig": sig, "observed": detail})),
-            Some(l) => (format!("{}/{}", sig, OVERFLOW_CAUSE), json!({"page_layout": l, "observed": detail})),
+            Some(l) => (format!("C25/{}/{}", assertion, OVERFLOW_CAUSE), json!({"page_layout": l, "would_be_sig": sig, "observed": detail})),
             None => (sig, detail),
         };
         self.out.viols.push(Viol { assertion, sig, detail, op_index });
@@ -337,15 +404,20 @@ impl<'a> Exec<'a> {
         })
     }
 
-    /// level-0 reachability from the entry point through nodes that `read_node` can read
-    fn reach_info(&self, target: NodeId) -> (bool, usize, usize) {
+    /// level-0 reachability of `target` from `start` through nodes that `read_node` can read, the
+    /// number of readable nodes linking to it, how many of its own neighbours have a full list, and
+    /// whether any readable node has a full level-0 list at all
+    fn reach_info(&self, target: NodeId, start: Option<NodeId>) -> (bool, usize, usize, bool) {
         let idx = self.idx.as_ref().unwrap();
-        // inbound links to target from readable nodes, and how many of target's own neighbours are full
         let mut inbound = 0usize;
+        let mut any_full = false;
         for n in &self.nodes {
             if let Ok(node) = idx.read_node(n.id) {
                 if node.neighbors_at_level(0).iter().any(|x| *x == target) {
                     inbound += 1;
+                }
+                if node.level0_neighbor_count() as usize >= turdb::hnsw::MAX_L0_NEIGHBORS {
+                    any_full = true;
                 }
             }
         }
@@ -360,7 +432,7 @@ impl<'a> Exec<'a> {
             }
         }
         let mut reachable = false;
-        if let Some(ep) = idx.index().entry_point() {
+        if let Some(ep) = start.or(idx.index().entry_point()) {
             let mut seen: HashSet<u64> = HashSet::new();
             let mut stack = vec![ep];
             seen.insert(nkey(ep));
@@ -378,11 +450,25 @@ impl<'a> Exec<'a> {
                 }
             }
         }
-        (reachable, inbound, out_full)
+        (reachable, inbound, out_full, any_full)
     }
 
     fn check_search(&mut self, pr: &Probe) {
         self.out.searches += 1;
+        if std::env::var("C25_DEBUG").is_ok() {
+            let idx = self.idx.as_ref().unwrap();
+            eprintln!("graph before search: entry={:?} max_level={}", idx.index().entry_point().map(|e| (e.page_no(), e.slot_index())), idx.index().max_level());
+            for n in &self.nodes {
+                match idx.read_node(n.id) {
+                    Ok(node) => eprintln!(
+                        "  node ({},{}) row={} deleted={} level={} l0={:?}",
+                        n.id.page_no(), n.id.slot_index(), node.row_id(), n.deleted, node.max_level(),
+                        node.neighbors_at_level(0).iter().map(|x| (x.page_no(), x.slot_index())).collect::<Vec<_>>()
+                    ),
+                    Err(e) => eprintln!("  node ({},{}) row={} deleted={} unreadable: {}", n.id.page_no(), n.id.slot_index(), n.row, n.deleted, e),
+                }
+            }
+        }
         let entry_deleted = self.entry_deleted();
         if !self.live.is_empty() {
             self.out.searches_with_live += 1;
@@ -517,26 +603,26 @@ impl<'a> Exec<'a> {
             let missing: Vec<u64> = self.live.keys().filter(|r| !got.contains(r)).cloned().collect();
             if !missing.is_empty() {
                 let graph_covered = self.nodes.len() <= pr.ef;
-                let mut cause = "unexplained";
+                let mut cause;
                 let mut info = json!(null);
                 if entry_deleted {
                     cause = "after_entry_point_delete";
                 } else {
-                    // look at the first missing row
+                    // look at the first missing row; the level-0 beam certainly visited every node it
+                    // returned, so reachability is judged from a returned live node (else the entry point)
                     let idx = self.idx.as_ref().unwrap();
+                    let start = live_rs.first().map(|r| r.node_id);
                     if let Some(nid) = idx.find_node_by_row_id(missing[0]) {
-                        let (reachable, inbound, out_full) = catch(|| self.reach_info(nid)).unwrap_or((false, 0, 0));
-                        info = json!({"row": missing[0], "node": [nid.page_no(), nid.slot_index()], "reachable_from_entry_via_readable_nodes_level0": reachable,
-                                      "inbound_level0_links_from_readable_nodes": inbound, "own_neighbours_with_full_lists": out_full});
-                        if self.any_delete {
-                            cause = if !reachable { "soft_deleted_node_blocks_traversal" } else { "after_delete_reachable_but_missed" };
-                        } else if inbound == 0 && out_full > 0 {
-                            cause = "backlink_dropped_neighbor_list_full";
-                        } else if !reachable {
-                            cause = "unreachable_no_delete";
-                        } else {
-                            cause = "reachable_but_missed";
-                        }
+                        let (reachable, inbound, out_full, any_full) = catch(|| self.reach_info(nid, start)).unwrap_or((false, 0, 0, false));
+                        info = json!({"row": missing[0], "node": [nid.page_no(), nid.slot_index()], "reachable_at_level0_from_a_returned_node_via_readable_nodes": reachable,
+                                      "inbound_level0_links_from_readable_nodes": inbound, "own_neighbours_with_full_lists": out_full, "some_level0_list_is_full": any_full});
+                        cause = match (self.any_delete, reachable, any_full) {
+                            (_, true, _) => "reachable_but_missed",
+                            (true, false, false) => "soft_deleted_node_blocks_traversal",
+                            (true, false, true) => "unreachable_after_delete_and_full_neighbor_lists",
+                            (false, false, true) => "backlink_dropped_neighbor_list_full",
+                            (false, false, false) => "unreachable_no_delete_no_full_list",
+                        };
                     } else {
                         cause = "live_row_not_in_row_id_map";
                     }
@@ -546,11 +632,8 @@ impl<'a> Exec<'a> {
                     cause = "unexplained";
                 }
                 let tier = if within { "within_link_capacity" } else { "beyond_link_capacity" };
-                let sig = if cause == "after_entry_point_delete" || cause == "soft_deleted_node_blocks_traversal" {
-                    format!("C25/complete_when_small/{}", cause)
-                } else {
-                    format!("C25/complete_when_small/{}/{}", cause, tier)
-                };
+                let explained = ["after_entry_point_delete", "soft_deleted_node_blocks_traversal", "backlink_dropped_neighbor_list_full", "unreachable_after_delete_and_full_neighbor_lists"];
+                let sig = if explained.contains(&cause) { format!("C25/complete_when_small/{}", cause) } else { format!("C25/complete_when_small/{}/{}", cause, tier) };
                 self.viol(
                     "complete_when_small",
                     sig,
@@ -561,11 +644,20 @@ impl<'a> Exec<'a> {
         }
     }
 
-    fn norm_results(rs: &[SearchResult]) -> Vec<(u32, u64)> {
-        let mut v: Vec<(u32, u64)> = rs.iter().map(|r| (r.distance.to_bits(), r.row_id)).collect();
-        // ties may legitimately come back in another order; compare as (distance, id) multisets in order of distance
-        v.sort();
-        v
+    /// same results up to the order of ties: equal distance sequences, and equal (distance, id) sets
+    /// among the entries strictly closer than the last one (a tie at the cut may resolve either way)
+    fn same_results(x: &[SearchResult], y: &[SearchResult]) -> bool {
+        let norm = |rs: &[SearchResult]| {
+            let mut v: Vec<(u32, u64)> = rs.iter().map(|r| (r.distance.to_bits(), r.row_id)).collect();
+            v.sort();
+            v
+        };
+        let (a, b) = (norm(x), norm(y));
+        if a.len() != b.len() || a.iter().zip(&b).any(|(p, q)| p.0 != q.0) {
+            return false;
+        }
+        let last = a.last().map(|p| p.0);
+        a.iter().filter(|p| Some(p.0) != last).eq(b.iter().filter(|p| Some(p.0) != last))
     }
 
     fn reopen(&mut self, probes: &[Probe]) {
@@ -614,7 +706,7 @@ impl<'a> Exec<'a> {
             self.out.reopen_probes += 1;
             let a = self.raw_search(pr);
             let same = match (&b, &a) {
-                (Ok(Ok(x)), Ok(Ok(y))) => Self::norm_results(x) == Self::norm_results(y),
+                (Ok(Ok(x)), Ok(Ok(y))) => Self::same_results(x, y),
                 (Ok(Err(_)), Ok(Err(_))) => true,
                 (Err(_), Err(_)) => true,
                 _ => false,
@@ -799,7 +891,9 @@ pub fn exec(p: &Params, ops: &[Op], path: &Path) -> Outcome {
         cur_op: 0,
         pages: HashMap::new(),
         layout_overflow: None,
-        layout_model_off: false,
+        // the overflow model is an emulation of one specific defect: switch it on only if the code
+        // under test really truncates slot offsets (a repaired tree must not be excused by it)
+        layout_model_off: !slot_offset_truncates(),
         predicted: None,
     };
     for (i, op) in ops.iter().enumerate() {
@@ -1422,6 +1516,19 @@ fn worker(a: &Args) -> i32 {
             }
             emit("END", &json!(n));
         }
+        "replay" => {
+            let txt = std::fs::read_to_string(&r[3]).unwrap_or_default();
+            let v: Value = serde_json::from_str(&txt).unwrap_or(Value::Null);
+            match find_history(&v).and_then(parse_history) {
+                Some((p, ops)) => {
+                    TRACE.store(true, std::sync::atomic::Ordering::Relaxed);
+                    let out = exec(&p, &ops, &path);
+                    emit("R", &outcome_json(0, "replay", &[], &p, &ops, &out));
+                    emit("END", &json!(0));
+                }
+                None => emit("ERR", &json!("no history object (params + ops) found in the file")),
+            }
+        }
         "single" => {
             let n: u64 = r[3].parse().unwrap();
             let (label, p, ops, feats) = history(a.seed, n);
@@ -1547,6 +1654,44 @@ pub fn run(a: &Args) -> i32 {
     if a.rest.first().map(|s| s == "worker").unwrap_or(false) {
         return worker(a);
     }
+    if let Some(rp) = &a.replay {
+        // re-run the history embedded in a replay file (in a capped worker) and print what fails
+        let dir = PathBuf::from(format!("{}/scratch/c25-{}", crate::report::VERIF_DIR, std::process::id()));
+        let _ = std::fs::create_dir_all(&dir);
+        let errp = dir.join("replay-stderr.txt");
+        let mut code = 2;
+        if let Ok(mut c) = spawn_worker(a, &dir, &["replay".to_string(), rp.clone()], true, &errp) {
+            let mut last_op = String::new();
+            let mut done = false;
+            let _ = pump(&mut c, 120, |tag, rest| match tag {
+                "O" => last_op = rest.to_string(),
+                "R" => {
+                    let v: Value = serde_json::from_str(rest).unwrap_or(Value::Null);
+                    let viols = v["viols"].as_array().cloned().unwrap_or_default();
+                    for x in &viols {
+                        println!("REPLAY property=C25 assertion={} sig={} at_op={}", x["assertion"].as_str().unwrap_or(""), x["sig"].as_str().unwrap_or(""), x["op_index"]);
+                        println!("  {}", x["detail"]);
+                    }
+                    println!("REPLAY property=C25 ops={} violations={}", v["n_ops"], viols.len());
+                    code = if viols.is_empty() { 0 } else { 1 };
+                }
+                "END" => done = true,
+                "ERR" => println!("REPLAY property=C25 error={}", rest),
+                _ => {}
+            });
+            let st = c.wait().ok();
+            if std::env::var("C25_DEBUG").is_ok() {
+                print!("{}", std::fs::read_to_string(&errp).unwrap_or_default());
+            }
+            if !done && code != 2 || !done && !last_op.is_empty() {
+                let (cause, excerpt) = stderr_summary(&errp);
+                println!("REPLAY property=C25 assertion=no_abort worker died ({:?}) in op [index overflow any_delete]={} cause={}\n{}", st, last_op, cause, excerpt);
+                code = 1;
+            }
+        }
+        let _ = std::fs::remove_dir_all(&dir);
+        return code;
+    }
     let miri = cfg!(miri);
     let mut ctx = Ctx::new(
         "C25",
@@ -1583,14 +1728,15 @@ pub fn run(a: &Args) -> i32 {
         return ctx.finish();
     }
 
+    ctx.extra.insert("slot_offset_truncation_present_in_code_under_test".into(), json!(slot_offset_truncates()));
     // ---- index histories: explore ----
     let dir = PathBuf::from(format!("{}/scratch/c25-{}", crate::report::VERIF_DIR, std::process::id()));
     if let Err(e) = std::fs::create_dir_all(&dir) {
         ctx.inconclusive(&format!("cannot create scratch dir: {}", e));
         return ctx.finish();
     }
-    let explore_until = if quick { 33.0 } else { 400.0 };
-    let max_hist: u64 = if quick { 6_000 } else { 150_000 };
+    let explore_until = if quick { 33.0 } else { 370.0 };
+    let max_hist: u64 = if quick { 20_000 } else { 400_000 };
     let (tx, rx) = std::sync::mpsc::channel::<Ev>();
     let t0 = ctx.start;
     let mut handles = vec![];
@@ -1727,10 +1873,10 @@ pub fn run(a: &Args) -> i32 {
                 }
                 hist_with_viol += 1;
                 let kind = if hung { "hang_over_90s".to_string() } else { cause.split('@').next().unwrap_or("worker_died").to_string() };
-                let sig = if overflow { format!("C25/no_abort/{}/{}", kind, OVERFLOW_CAUSE) } else { format!("C25/no_abort/{}", kind) };
+                let sig = if overflow { format!("C25/no_abort/{}", OVERFLOW_CAUSE) } else { format!("C25/no_abort/{}", kind) };
                 let (label, hp, hops, feats) = history(a.seed, n);
                 let d = json!({"history_no": n, "kind": label, "features": feats, "params": params_json(&hp), "n_ops": hops.len(), "worker_exit": status, "died_in_op": opi,
-                               "node_page_overflow_predicted_before_that_op": overflow, "stderr": excerpt});
+                               "node_page_overflow_predicted_before_that_op": overflow, "kind": kind, "stderr": excerpt});
                 match sigs.get_mut(&sig) {
                     Some(rec) => {
                         rec.count += 1;
@@ -1766,7 +1912,7 @@ pub fn run(a: &Args) -> i32 {
     tasks.truncate(32);
     let tasks = std::sync::Arc::new(std::sync::Mutex::new(tasks));
     let results = std::sync::Arc::new(std::sync::Mutex::new(HashMap::<String, Value>::new()));
-    let min_deadline = if quick { 48.0 } else { 520.0 };
+    let min_deadline = if quick { 48.0 } else { 440.0 };
     let mut hs = vec![];
     for w in 0..WORKERS {
         let tasks = tasks.clone();
